@@ -1559,6 +1559,14 @@ impl Block {
                         let expected_atr_multiplier = 1 + expected_atr_payout;
 
                         //
+                        // amount times multiplier can exceed 64 bits long before the 5% cap
+                        // below brings the payout back down, so the uncapped figures are kept
+                        // in 128 bits, together with the amount each rebroadcast started from
+                        //
+                        let mut uncapped_total_payout_atr: u128 = 0;
+                        let mut rebroadcast_input_amounts: Vec<Currency> = vec![];
+
+                        //
                         // loop through block to find eligible transactions
                         //
                         for transaction in &atr_block.transactions {
@@ -1676,13 +1684,13 @@ impl Block {
                                         //
                                         // Compute payout based on the payload slip2
                                         //
-                                        let atr_payout_for_slip =
-                                            slip2.amount * expected_atr_multiplier;
+                                        let atr_payout_for_slip: u128 =
+                                            slip2.amount as u128 * expected_atr_multiplier as u128;
                                         let surplus_payout_to_subtract_from_treasury =
-                                            atr_payout_for_slip - slip2.amount;
+                                            atr_payout_for_slip - slip2.amount as u128;
                                         let atr_fee_for_slip = atr_fee;
 
-                                        if atr_payout_for_slip > atr_fee {
+                                        if atr_payout_for_slip > atr_fee as u128 {
                                             cv.total_rebroadcast_nolan += slip2.amount;
                                             cv.total_rebroadcast_slips += 1;
 
@@ -1696,7 +1704,9 @@ impl Block {
                                             //
                                             // for fee accounting of payload
                                             //
-                                            input2.amount = atr_payout_for_slip;
+                                            input2.amount =
+                                                Currency::try_from(atr_payout_for_slip)
+                                                    .unwrap_or(Currency::MAX);
 
                                             //
                                             // Prepare output slips, only payload slip carries ATR amount
@@ -1706,7 +1716,7 @@ impl Block {
                                             let mut output3 = slip3.clone();
 
                                             output2.slip_type = SlipType::ATR;
-                                            output2.amount = atr_payout_for_slip - atr_fee;
+                                            output2.amount = input2.amount - atr_fee;
 
                                             //
                                             // Create a special rebroadcast for triple NFT group
@@ -1719,8 +1729,9 @@ impl Block {
                                                     output3,
                                                 );
 
-                                            cv.total_payout_atr +=
+                                            uncapped_total_payout_atr +=
                                                 surplus_payout_to_subtract_from_treasury;
+                                            rebroadcast_input_amounts.push(slip2.amount);
                                             cv.total_fees_atr += atr_fee;
 
                                             //
@@ -1752,19 +1763,22 @@ impl Block {
                                         //
                                         //  Single-slip case
                                         //
-                                        let atr_payout_for_slip =
-                                            output.amount * expected_atr_multiplier;
+                                        let atr_payout_for_slip: u128 =
+                                            output.amount as u128 * expected_atr_multiplier as u128;
                                         let surplus_payout_to_subtract_from_treasury =
-                                            atr_payout_for_slip - output.amount;
+                                            atr_payout_for_slip - output.amount as u128;
                                         let atr_fee_for_slip = atr_fee;
 
-                                        if atr_payout_for_slip > atr_fee {
+                                        if atr_payout_for_slip > atr_fee as u128 {
                                             cv.total_rebroadcast_nolan += output.amount;
                                             cv.total_rebroadcast_slips += 1;
 
                                             //
                                             // clone the slip, update the amount
                                             //
+                                            let atr_payout_for_slip =
+                                                Currency::try_from(atr_payout_for_slip)
+                                                    .unwrap_or(Currency::MAX);
                                             let mut slip = output.clone();
                                             slip.slip_type = SlipType::ATR;
                                             slip.amount = atr_payout_for_slip - atr_fee_for_slip;
@@ -1781,8 +1795,9 @@ impl Block {
                                             //
                                             // track payouts and fees
                                             //
-                                            cv.total_payout_atr +=
+                                            uncapped_total_payout_atr +=
                                                 surplus_payout_to_subtract_from_treasury;
+                                            rebroadcast_input_amounts.push(output.amount);
                                             cv.total_fees_atr += atr_fee_for_slip;
 
                                             //
@@ -1853,8 +1868,10 @@ impl Block {
                         // from flushing the treasury out to their own wallet by massively increasing the
                         // amount of SAITO being rebroadcast in a single block.
                         //
-                        if cv.total_payout_atr > (previous_block_treasury as f64 * 0.05) as u64 {
-                            let max_total_payout = (previous_block_treasury as f64 * 0.05) as u64;
+                        let max_total_payout = (previous_block_treasury as f64 * 0.05) as u64;
+                        if uncapped_total_payout_atr <= max_total_payout as u128 {
+                            cv.total_payout_atr = uncapped_total_payout_atr as Currency;
+                        } else {
                             let unadjusted_total_nolan = cv.total_rebroadcast_nolan;
                             let adjusted_atr_payout_multiplier =
                                 max_total_payout / unadjusted_total_nolan;
@@ -1871,7 +1888,11 @@ impl Block {
                             //
                             cv.total_payout_atr = 0;
 
-                            for rebroadcast_tx in &mut cv.rebroadcasts {
+                            for (rebroadcast_tx, input_amount) in cv
+                                .rebroadcasts
+                                .iter_mut()
+                                .zip(rebroadcast_input_amounts.iter().copied())
+                            {
                                 //
                                 // update the amount that is in the output transaction according
                                 // to the amount in the input transaction. since this isn't a common
@@ -1890,11 +1911,6 @@ impl Block {
                                     && rebroadcast_tx.from[1].slip_type != SlipType::Bound
                                     && rebroadcast_tx.from[2].slip_type == SlipType::Bound
                                 {
-                                    // the input slip carries the unadjusted payout, recover
-                                    // the amount of the slip that is being rebroadcast
-                                    let input_amount =
-                                        rebroadcast_tx.from[1].amount / expected_atr_multiplier;
-
                                     //
                                     // Calculate the new output amount
                                     //
@@ -1914,8 +1930,6 @@ impl Block {
                                     //
                                     // Single‐slip ATR: payload is the only slip at index 0
                                     //
-                                    let input_amount =
-                                        rebroadcast_tx.from[0].amount / expected_atr_multiplier;
                                     let new_output_amount =
                                         input_amount * adjusted_output_multiplier;
                                     rebroadcast_tx.to[0].amount = new_output_amount;
